@@ -149,6 +149,27 @@ def gen_case(rnd, kind, cid, maxops, stats, allow_ttl0=True, probe_every=True):
         else:
             emit("op %d find %d %d" % (now, victim, rnd.choice([0, 1])), now)
         nops = max(3, nops // 2)
+    if kind in ("utlru", "ut_map") and rnd.random() < 0.3:
+        # clear() on a partially filled container with a hole, then a continuation long enough to
+        # re-use every slot: a few writes, an erase, clear, then distinct new keys and lookups
+        ks = universe[:max(2, min(cap - 1 if cap > 2 else cap, 4))]
+        for k in ks:
+            emit("op %d insert 0 %d %d 3" % (now, k, val()), now)
+            marks.append(now + cur_ttl[0] * MS)
+        if rnd.random() < 0.8:
+            emit("op %d erase %d" % (now, rnd.choice(ks)), now)
+        if kind == "utlru" and rnd.random() < 0.4:
+            t_new = rnd.choice([1, 5, 50, 100])
+            emit("op %d update_ttl %d" % (now, t_new), now)
+            cur_ttl[0] = t_new
+        now += rnd.choice([0, 1, MS])
+        emit("op %d clear" % now, now)
+        for k in universe[-min(len(universe), cap + 1):]:
+            emit("op %d insert 0 %d %d 3" % (now, k, val()), now)
+            marks.append(now + cur_ttl[0] * MS)
+        for k in universe[-3:]:
+            emit("op %d find %d 0" % (now, k), now)
+        nops = max(3, nops // 2)
     if kind == "tlru" and rnd.random() < 0.45:
         # an update that lands on exactly the same deadline (same instant + same TTL, or later with a
         # correspondingly shorter TTL), or that moves the deadline earlier; then fill up and evict
